@@ -19,7 +19,7 @@ ASSUMPTIONS = [
     "granule demand model: n = (data + header/trailer bytes) // 2304 + 1 (the property's 'minimum, or one more on an exact multiple')",
     "directory-slot exhaustion cannot be reached on a valid 35-track image (68 granules < 72 slots); it is not claimed as covered",
 ]
-HEALTH = {"near_full": 0.3, "refused": 0.25, "mode:host": 40}
+HEALTH = {"near_full": 0.12, "refused": 0.1, "mode:host": 16}
 EXHAUSTIVE = {"quick": ["68 one-granule files + 1", "28+28+12 granules exactly full / one more", "stream lengths 2304k-1, 2304k, 2304k+1 for k=1..6 x 3 kinds"],
               "thorough": ["as quick"]}
 
